@@ -6,10 +6,10 @@ sys.path.insert(0, HERE); sys.path.insert(0, os.environ.get("VERIF_REPO", "/repo
 
 TEXT = {
  "C01": ("exploration", "run-sim", "5.C01",
-         "Seeded search over simulated runs: the real runner executes generated programs whose every callback is scripted (raise / interrupt / skip / pass); the exit code is compared with the reference model's reading of the realised events (no false green, no false red). Sampling of worlds, so evidence not proof; that is the right level because the verdict is a 5-way disjunction over unbounded trees and fault positions.",
+         "Seeded search over simulated runs: the real runner executes generated programs whose every callback is scripted (raise / interrupt / skip / pass); the exit code is compared with the reference model's reading of the realised events (no false green, no false red). For every 8th world the clause "plus any single raising hook or cleanup" is enumerated: each hook invocation and each registered cleanup of the run raises once and the verdict must turn red. A sample of worlds is re-executed as a real child process (python, real pipes) and its exit code compared. Sampling of worlds, so evidence not proof; that is the right level because the verdict is a 5-way disjunction over unbounded trees and fault positions.",
          "reference model sim/model.py; in-process run through Configuration + run_behave; auto-retry worlds excluded (outside the quantifier)"),
  "C02": ("exploration", "run-sim", "5.C02",
-         "Lock-step acceptor over the step-function call log (order, background inheritance, nothing after the first non-pass, dry-run purity) plus outcome->status mapping for every executed step, including auto-retry histories (statuses depend on the last attempt only). Sampled worlds.",
+         "Lock-step acceptor over the step-function call log (order, background inheritance, nothing after the first non-pass, dry-run purity) plus outcome->status mapping for every executed step, including auto-retry histories (statuses depend on the last attempt only) and async step functions wrapped by async_run_until_complete that sleep, spawn tasks and hit behave's timeout under a virtual-time asyncio loop (no real sleeping). Sampled worlds.",
          "the model decides 'has a definition' with its own regexes built from the abstract patterns; continue_after_failed_step worlds only check the mapping"),
  "C03": ("exploration", "run-sim", "5.C03",
          "Every element's status is checked bottom-up against the ACTUAL statuses of its children as produced by real runs (stop/abort remainders, hook errors, dry-run, de-selection, retries); the status classification table is checked once per process. Sampled worlds; cells reached are listed in the evidence.",
@@ -24,14 +24,14 @@ TEXT = {
          "For each sampled world every hook invocation of the fault-free run is an injection point (x Exception/AssertionError), plus sampled pairs: each faulted run must be accepted by the must/may hook grammar (strict nesting, after-phase always paired, no body under a failed before-hook, no hooks for skipped elements / dry-run), mark exactly the element concerned, fail the run, and leave bystanders as in the fault-free run.",
          "enumeration is complete per sampled world (<= 40 invocations), worlds are sampled; KeyboardInterrupt inside hooks is not injected (unspecified)"),
  "C13": ("exploration", "run-sim", "5.C13",
-         "Hooks and steps at every level set / shadow / delete / probe context attributes and register cleanups (plain, args, layer=, generator fixtures, failing setup) with some cleanups raising; every probe is compared with a dict-stack model and the cleanup log with the LIFO exactly-once model at the scope boundaries the acceptor tracks; execute_steps must restore text/table.",
-         "history machine driving Context directly is not built yet: histories are those reachable through real runs"),
+         "Hooks and steps at every level set / shadow / delete / probe context attributes and register cleanups (plain, args, layer=, generator fixtures, failing setup) with some cleanups raising; every probe is compared with a dict-stack model and the cleanup log with the LIFO exactly-once model at the scope boundaries the acceptor tracks; execute_steps must restore text/table. For every 4th world each registered cleanup raises once (plus a pair). A context history machine drives a real Context directly through seeded operation histories (push/pop/set/get/delete/contains/set-root/use_or_assign/use_or_create/add_cleanup variants/use_fixture variants, user and behave mode) with ALL subsets of raising cleanups for histories with <= 4 cleanups.",
+         "the context machine uses Context._push/_pop/_do_cleanups/_set_root_attribute, the calls the runner itself makes"),
  "C14": ("exploration", "run-sim", "5.C14",
          "After every simulated run a census of the real model is compared with (a) the text printed by SummaryReporter.end(), parsed for all five formats, (b) SummaryCollector fed with the same features and (c) all format functions applied to the reporter's final tables; listed failing/errored scenarios must equal the census sets. Sampled worlds covering untested remainders, hook errors, dry-run, rules, outline rows and per-scenario background copies.",
          "the summary parser is the oracle's own (regex over the documented line shapes); durations are ignored"),
  "C15": ("exploration", "run-sim", "5.C15",
-         "Two recording formatters (first and last position) around random subsets/orders of the built-in formatters: event grammar, agreement between recorders, one match+result per step the model says was processed; JSON re-read with json.loads and compared element by element with the census (status on its own element, tables, doc-strings) and read back through behave.json_parser; plain output re-parsed step by step. No built-in formatter may raise.",
-         "progress formatters are only checked for not raising; pretty output is not re-parsed"),
+         "Two recording formatters (first and last position) around random subsets/orders of the built-in formatters: event grammar, agreement between recorders, one match+result per step the model says was processed; JSON re-read with json.loads and compared element by element with the census (status on its own element, tables, doc-strings) and read back through behave.json_parser; plain output re-parsed step by step; progress / progress2 mark strings re-read per feature line. No built-in formatter may raise.",
+         "progress3 and pretty output are only checked for not raising"),
  "C16": ("exploration", "run-sim", "5.C16",
          "--junit worlds with names, messages and captured output drawn from a hostile alphabet (XML metacharacters, ']]>', C0/C1 controls, astral characters, ANSI escapes): every TESTS-*.xml must parse with expat, its test cases must be the feature's scenarios with their final status, counters must equal the numbers of entries, failed/errored cases must carry an entry naming the step or hook.",
          "names in feature files cannot carry control characters (line based format); lone surrogates are not generated"),
